@@ -2,14 +2,14 @@
 from core import *
 
 INV = ["Ok", "RefinesList", "RefinesFrames", "NoLeak", "Pinned", "Reachable", "TypeOK"]
-ALL1 = {"a", "p", "i", "r", "o", "e", "f", "g", "v"}
+ALL1 = {"a", "p", "i", "r", "o", "e", "f", "g", "v", "j"}
 UTIL = {"hl", "ha", "rl"}
 OBJ = {"cc", "mc", "ca", "ma", "s", "d"}
 
 
-def consts(nodes, depth, maxgen=100, lists=1, dist=None, ops=ALL1, nest=None, defects=()):
+def consts(nodes, depth, maxgen=100, lists=1, dist=None, ops=ALL1, nest=None, defects=(), jump=(1,)):
     return {"MaxNodes": nodes, "MaxDepth": depth, "MaxGen": maxgen, "MaxLists": lists,
-            "InitDist": set(dist if dist is not None else [maxgen]), "Ops": set(ops),
+            "InitDist": set(dist if dist is not None else [maxgen]), "JumpDist": set(jump), "Ops": set(ops),
             "NestOps": set(ops if nest is None else nest), "Defects": set(defects)}
 
 
@@ -52,8 +52,10 @@ def c01(tier, seed):
 def c02(tier, seed):
     quick = tier == "quick"
     n = 3 if quick else 4
-    models = [{"module": "CLImpl", "tag": "nest%d" % n, "constants": consts(n, 2, ops=ALL1 if quick else ALL1 - {"g"}), "invariants": INV,
+    models = [{"module": "CLImpl", "tag": "nest%d" % n, "constants": consts(n, 2, ops=ALL1 - {"j"} if quick else ALL1 - {"g", "j"}), "invariants": INV,
                "heap": "16g"}]
+    if not quick:
+        models.append({"module": "CLImpl", "tag": "nest3-jump", "constants": consts(3, 2, ops=ALL1 - {"g", "e"}), "invariants": INV, "heap": "16g"})
     if not quick:
         models.append({"module": "CLImpl", "tag": "sim-d3", "role": "simulate", "simulate": "num=3000,seed=%(seed)d", "workers": 8,
                        "constants": consts(6, 3), "invariants": INV, "timeout": 900})
@@ -72,6 +74,7 @@ def c19(tier, seed):
     quick = tier == "quick"
     ops = {"a", "i", "r", "v", "o"} if quick else {"a", "p", "i", "r", "v", "o", "f"}
     models = [{"module": "CLImpl", "tag": "wrap2", "constants": consts(3 if quick else 4, 2, maxgen=2, dist=[0, 1, 2], ops=ops), "invariants": INV, "heap": "16g"},
+              {"module": "CLImpl", "tag": "jump", "constants": consts(3 if quick else 5, 1, ops={"a", "p", "r", "v", "f", "j"}, nest={"a", "r"}, jump=(0, 1, 2) if not quick else (0, 1)), "invariants": INV},
               {"module": "CLImpl", "tag": "wrap-2lists", "constants": consts(3, 1, maxgen=2 if quick else 3, lists=2, dist=[0, 1, 2] if quick else [0, 1, 2, 3],
                                                                          ops={"a", "r", "v", "cc", "ma", "s"} if quick else {"a", "r", "v", "cc", "ma", "s", "mc", "ca"}), "invariants": INV}]
     worlds = [world("cl_single_fn", 0, 0), world("cl_multi_cb", 1, 1, fraction=0.15, fill="0xFF")]
